@@ -298,7 +298,7 @@ func init() {
 		ID:              "C09",
 		PopulateProfile: &c09Populate,
 		PopulateBlocks:  160,
-		Inputs:          map[string]int{"quick": 800, "thorough": 9000},
+		Inputs:          map[string]int{"quick": 1600, "thorough": 12000},
 		Batches:         map[string]int{"quick": 8, "thorough": 16},
 		One:             c09One,
 	})
